@@ -390,6 +390,123 @@ def run(case, ctx):
               "virtual_seconds": round(P.sched.now, 3)})
 
 
+# ------------------------------------------------------- leg: sessions
+@st.composite
+def session_case(draw):
+    """several requests on ONE data link connection (explicit connect)"""
+    lk = draw(link())
+    size = st.one_of(around(128, 3).map(lambda n: max(3, n - 6)),
+                     st.sampled_from([3, 6, 122, 250, 378]),
+                     st.integers(6, 600))
+    reqs = draw(st.lists(st.one_of(
+        st.tuples(st.just("put"), size, st.just(0)),
+        st.tuples(st.just("get"), size, size)), min_size=2, max_size=5))
+    return dict(lk, kind="session", reqs=[list(r) for r in reqs],
+                srv_miu=draw(st.sampled_from([128, 128, 248, 1984])),
+                srv_rw=draw(st.integers(1, 6)),
+                seed=draw(st.integers(0, 255)))
+
+
+def run_session(case, ctx):
+    srv_side = case["server"]
+    cli_side = "t" if srv_side == "i" else "i"
+    opts = {}
+    for side in ("i", "t"):
+        opts[side] = {"miu": case["miu_" + side], "lto": case["lto_" + side],
+                      "agf": case["agf_" + side], "lri": case["lri"],
+                      "lrt": case["lrt"], "brs": case["brs"]}
+    P = p2p.Pair(case["choices"], seed=case["seed"], opts_i=opts["i"],
+                 opts_t=opts["t"])
+    reqs = [(op, message(norm_size(n), case["seed"] + 3 * k),
+             message(norm_size(m), case["seed"] + 3 * k + 1))
+            for k, (op, n, m) in enumerate(case["reqs"])]
+    answers = [ans for op, msg, ans in reqs if op == "get"]
+    seen, results, done, out = [], [], [], {}
+    try:
+        class Server(nfc.snep.SnepServer):
+            def process_put_request(self, records):
+                seen.append(("put", b"".join(ndef.message_encoder(records))))
+                return nfc.snep.Success
+
+            def process_get_request(self, records):
+                seen.append(("get", b"".join(ndef.message_encoder(records))))
+                k = sum(1 for x in seen if x[0] == "get") - 1
+                return list(ndef.message_decoder(answers[k]))
+
+        def start_server(llc):
+            Server(llc, recv_miu=case["srv_miu"],
+                   recv_buf=case["srv_rw"]).start()
+
+        def client(llc):
+            c = nfc.snep.SnepClient(llc, max_ndef_msg_recv_size=100000)
+            try:
+                c.connect("urn:nfc:sn:snep")
+                for op, msg, ans in reqs:
+                    if op == "put":
+                        results.append(c.put_octets(msg))
+                    else:
+                        r = c.get_octets(msg, timeout=5.0)
+                        results.append(None if r is None else bytes(r))
+                c.close()
+            except nfc.snep.SnepError as e:
+                out["snep_error"] = e.errno
+            except nfc.llcp.Error as e:
+                out["llcp_error"] = e
+            except Exception as e:
+                out["other"] = e
+            finally:
+                done.append(1)
+        P.on_connect[srv_side] = start_server
+        P.on_connect[cli_side] = lambda llc: P.sched.spawn(
+            lambda: client(llc), "client")
+        P.terminate[cli_side] = lambda: bool(done)
+        P.start()
+        finished = P.sched.run_until(
+            lambda: "i" in P.result and "t" in P.result, 120.0)
+        failures = P.sched.failures()
+        blocked = [repr(t) for t in P.sched.blocked()]
+    finally:
+        P.close()
+    ctx.set_class("session")
+    if P.exc:
+        side, e = sorted(P.exc.items())[0]
+        raise unexpected(e, "connect-raises")
+    if "other" in out:
+        raise unexpected(out["other"], "client-raises")
+    for name, e in failures:
+        raise unexpected(e, "thread-died:" + name)
+    if not done:
+        raise Violation("client-never-finished", "blocked: %r" % blocked)
+    if not finished:
+        raise Violation("connect-did-not-return", "blocked: %r" % blocked)
+    if "llcp_error" in out or "snep_error" in out:
+        raise Violation("session-error", repr(out)[:200])
+    want_seen = [(op, msg) for op, msg, ans in reqs]
+    want_res = [True if op == "put" else ans for op, msg, ans in reqs]
+    if seen != want_seen:
+        raise Violation("request-not-delivered-once-intact",
+                        "requests %r, the server application saw %r" % (
+                            [(op, len(m)) for op, m in want_seen],
+                            [(op, len(m)) for op, m in seen]))
+    if results != want_res:
+        k = 0
+        while k < len(results) and k < len(want_res) and \
+                results[k] == want_res[k]:
+            k += 1
+        raise Violation("response-differs", "request %d (%s): client got %r"
+                        % (k, reqs[k][0] if k < len(reqs) else "-",
+                           None if k >= len(results) or results[k] is None
+                           else (results[k] if results[k] is True
+                                 else len(results[k]))))
+    ctx.label("requests:%d" % len(reqs))
+    if any(op == "get" and (len(ans) + 6) % 128 < 3 or
+           (len(ans) + 6) % 128 > 125 for op, msg, ans in reqs):
+        ctx.label("response-at-miu-boundary")
+    ctx.nontrivial()
+    ctx.note({"reqs": [(op, len(m), len(a)) for op, m, a in reqs],
+              "frames_on_air": len(P.air.log)})
+
+
 def _leg(name, gen, q, t):
     return Leg(name, run=run, gen=lambda tier: gen, quick=q, thorough=t,
                shards_quick=6, shards_thorough=16, nt_floor=0.2,
@@ -412,6 +529,15 @@ LEGS = [
              "at which they hold no lock; non-trivial "
              "= fragmented (always) - the stalled:N labels count cases in "
              "which N stalls fired."),
+    Leg("session", run=run_session, gen=lambda tier: session_case(),
+        quick=500, thorough=10000, shards_quick=6, shards_thorough=16,
+        nt_floor=0.5,
+        rule="2..5 SNEP requests (put / get) on one data link connection "
+             "(explicit connect), request and response sizes at k*128-6 +-7 "
+             "(fragment boundaries of the default MIU), 3..600 otherwise, "
+             "generated link configuration; every request must reach the "
+             "server application once and intact, every result must be the "
+             "right one; non-trivial = always (at least two requests)."),
     _leg("snep-put", snep_case("put"), 700, 12000),
     _leg("snep-get", snep_case("get"), 700, 10000),
     _leg("handover", ho_case(), 500, 8000),
